@@ -56,6 +56,52 @@ def run(tier, seed):
                 r = d.call({"op": "lex", "s": s})
                 if kind == "dbg":
                     acc.sample({"input": s, "observed": r.get("ok") or r}, cap=5)
+    if tier == "thorough":
+        from core import sanit
+        # AddressSanitizer (+ LeakSanitizer): all strings up to length 4, plus random long strings
+        reqs = [{"op": "c12_sweep", "alphabet": ALPHABET, "len": L, "threads": NCPU} for L in (1, 2, 3, 4)]
+        reqs.append({"op": "c12_sweep", "alphabet": ALPHABET, "threads": NCPU, "random": {"min": 5, "max": 300, "count": 200000, "seed": seed + 17}})
+        try:
+            reps, reports, code = sanit.asan_run(reqs)
+            for rep in reps:
+                absorb(acc, rep, "asan", "under AddressSanitizer")
+                acc.count("asan_strings", rep.get("strings", 0))
+            acc.counters["asan_reports"] = len(reports)
+            for r in reports:
+                who, frame = sanit.classify(r)
+                if who == "anything":
+                    acc.violate("c12:asan:" + str(frame), "AddressSanitizer report with a frame in the crate: " + r[:600], {"report": r[:4000]})
+                else:
+                    acc.count("asan_reports_in_dependencies_only")
+            if code != 0 and not reports:
+                acc.inconc("asan driver exited with %s without a report" % code)
+        except Exception as ex:
+            acc.inconc("asan run failed: %r" % (ex,))
+        # Miri on the Db-free workload (lexer, parser/tree builder, number reader, formatter, unit words)
+        try:
+            runs = sanit.miri_run([seed * 1000 + i for i in range(16)], 40)
+            for r in runs:
+                if r["status"] != "exit":
+                    acc.inconc("miri seed %s: %s" % (r["seed"], r["status"]))
+                    continue
+                sm = r.get("summary") or {}
+                acc.count("miri_strings", sm.get("strings", 0))
+                acc.count("miri_literals", sm.get("literals", 0))
+                acc.count("miri_formatted", sm.get("formatted", 0))
+                acc.evaluations += sm.get("strings", 0)
+                for v in sm.get("violations", []):
+                    acc.violate("c12:miri-monitor:" + v[:3], "under Miri: " + v[:400], {"what": v, "seed": r["seed"]})
+                if r["ub"]:
+                    who, frame = sanit.classify(r["stderr"])
+                    if who == "anything":
+                        acc.violate("c12:miri-ub:" + str(frame), "Miri reported undefined behaviour with a frame in the crate: " + r["stderr"][-800:], {"stderr": r["stderr"], "seed": r["seed"]})
+                    else:
+                        acc.count("miri_reports_in_dependencies_only")
+                        acc.inconclusive_notes.append("miri report in a dependency (seed %s): %s" % (r["seed"], r["stderr"][-300:]))
+                elif r["code"] != 0 and not sm.get("violations"):
+                    acc.inconc("miri seed %s exited with %s: %s" % (r["seed"], r["code"], r["stderr"][-300:]))
+        except Exception as ex:
+            acc.inconc("miri run failed: %r" % (ex,))
     # distinct non-trivial = distinct tree-shape classes (hashes) - the monitor counts them
     acc.nontrivial = set(range(shapes))
     return finish(PID, tier, seed, "exploration", acc, RULE, t0,
